@@ -124,6 +124,35 @@ def c01_r1(ctx):
         ctx.check(not probs, key(fi, f"path: {name}"), "; ".join(sorted(set(probs))), fi.loc(), okmsg=f"_resolve_selection_set [{name}] accounted for")
 
 
+@rule("C01.R8", "an inline fragment contributes to a class exactly when its type condition is that class's type or one of its interfaces", min_instances=4, also=["C05"])
+def c01_r8(ctx):
+    fi = ctx.repo.func(RT + "_get_inline_fragment_root_type")
+    T = "self.schema.type_map.get(root_type)"
+
+    def mk(known, is_object, in_interfaces, same):
+        def atom(e):
+            t = norm(strip_pre(e))
+            if t == T:
+                return known
+            if t == f"isinstance({T}, GraphQLObjectType)":
+                return is_object
+            if t.startswith("selection_value in {") and "interfaces" in t:
+                return in_interfaces
+            if t == "selection_value == root_type":
+                return same
+            return None
+        return atom
+    cases = [("unknown root type", mk(False, False, False, False), {"None"}),
+             ("object type implementing the fragment's interface", mk(True, True, True, False), {"selection_value"}),
+             ("type condition equals the class's type", mk(True, True, False, True), {"root_type", "selection_value"}),
+             ("abstract class, condition is another type", mk(True, False, False, False), {"None"}),
+             ("object type, unrelated condition", mk(True, True, False, False), {"None"})]
+    for name, atom, want in cases:
+        o = Interp(fi, atom).run()
+        got = {norm(x.value) if x.value is not None else "None" for x in o}
+        ctx.check(bool(o) and got <= want and bool(got), key(fi, name), f"{name}: the inline fragment is evaluated for {sorted(got)}, expected one of {sorted(want)}", fi.loc(), okmsg=f"inline fragment root [{name}] -> {sorted(got)}")
+
+
 @rule("C01.R9", "@skip/@include on a fragment spread or inline fragment makes the fields it contributes optional", min_instances=2, also=["C05"])
 def c01_r9(ctx):
     fi = ctx.repo.func(RT + "_resolve_selection_set")
